@@ -48,10 +48,10 @@ def check_visitor_core(model: Model, col, rule: str):
         for evs, status in paths(lp.body, loop_iters=(1,)):
             atoms = cond_atoms(evs)
             if any(k.startswith(f"hasattr({selfn},") and v is True for k, v in atoms.items()):
-                first_hit = first_hit or status == "return"
+                first_hit = first_hit or status in ("return", "break") or any(e.kind == "break" for e in evs)
     col.check(first_hit, rule, f"{VISITOR}::Visitor.v_Generic first match wins", "the first class of the MRO that has a handler decides (the loop returns there)",
               "a matching handler does not end the search: a more general handler overrides the specific one", VISITOR, vg)
-    fallback = [c for c in ast.walk(vg) if isinstance(c, ast.Call) and last_attr(c) == "v_Default"]
+    fallback = [c for c in ast.walk(vg) if isinstance(c, ast.Attribute) and c.attr == "v_Default"]
     col.check(bool(fallback) and all(not any(id(c) == id(x) for lp in loops for x in ast.walk(lp)) for c in fallback), rule, f"{VISITOR}::Visitor.v_Generic falls back to v_Default",
               "v_Default is used only after the whole MRO was tried", "the default handler is not the fallback after the MRO walk", VISITOR, vg)
     # (c) what default traversal re-initialises is nothing a visitor accumulates
